@@ -138,6 +138,25 @@ def _collect_reals(v, out):
             _collect_reals(x, out)
 
 
+def rng_table(c, m):
+    """model values of every draw made on this path (for the scripted replay generator)"""
+    out = []
+    for seed, hist, i, kind, term in getattr(c, "draw_records", [])[:400]:
+        try:
+            sv = m.eval(seed, model_completion=True).as_long()
+            v = m.eval(term, model_completion=True)
+            if z3.is_int_value(v):
+                val = v.as_long()
+            elif z3.is_rational_value(v):
+                val = v.numerator_as_long() / v.denominator_as_long()
+            else:
+                continue
+            out.append(dict(seed=sv, hist=[list(h) for h in hist], i=i, kind=kind, value=val))
+        except Exception:
+            continue
+    return out
+
+
 # monkeypatch Ctx.prove to concretise inputs eagerly (models are not picklable) --
 _orig_prove = core.Ctx.prove
 
@@ -157,6 +176,7 @@ def _prove(self, prop, label, info=None):
         if m is None:
             m = cex.model
         cex.inputs = concretize(getattr(self, "inputs", {}), m)
+        cex.inputs["__rng__"] = rng_table(self, m)
         cex.info = info if not callable(info) else info(m)
         cex.model = None
     return ok
@@ -200,6 +220,21 @@ def _unjson(x):
     return x
 
 
+def run_replay(h, inputs, label, params):
+    """real seeds first; then the solver's draws through a scripted RandomState"""
+    rep, detail = h.replay(inputs, label, **params)
+    if rep or not inputs.get("__rng__"):
+        return rep, detail
+    from symx import replay_rng
+    with replay_rng.scripted(inputs["__rng__"]):
+        inp = dict(inputs)
+        inp["__scripted__"] = True
+        rep2, detail2 = h.replay(inp, label, **params)
+    if rep2:
+        return True, "[scripted-rng: draws taken from the solver model] " + str(detail2)
+    return rep, detail
+
+
 def _job(args):
     """worker: explore one harness configuration; replay counterexamples."""
     modname, hname, params, tier, deadline_s = args
@@ -234,11 +269,11 @@ def _job(args):
             seen[key] = seen.get(key, 0) + 1
             inputs = getattr(cx, "inputs", {})
             try:
-                rep, detail = h.replay(_unjson(_jsonable(inputs)), cx.label, **params)
+                rep, detail = run_replay(h, _unjson(_jsonable(inputs)), cx.label, params)
             except Exception as e:  # replay harness failure => unconfirmed
                 rep, detail = False, "replay raised " + repr(e) + "\n" + traceback.format_exc()[-600:]
             out["cex"].append(dict(label=cx.label, inputs=_jsonable(inputs), info=_jsonable(cx.info),
-                                   reproduced=bool(rep), detail=str(detail)[:600]))
+                                   reproduced=bool(rep), candidate_only=rep is None, detail=str(detail)[:600]))
         out["n_cex_total"] = len(ex.cex)
         if h.concrete is not None:
             try:
@@ -316,7 +351,7 @@ def run_property(pid, modname, tier, seed, level_note, assumptions, bounds, only
 
     known = load_known()
     agg = core.Stats()
-    violations, known_hits, unconfirmed, errors, inconclusive = [], [], [], [], []
+    violations, known_hits, unconfirmed, errors, inconclusive, candidates = [], [], [], [], [], []
     validated = 0
     per_h = {}
     samples = []
@@ -358,6 +393,9 @@ def run_property(pid, modname, tier, seed, level_note, assumptions, bounds, only
         for cx in r["cex"]:
             entry = dict(harness=r["harness"], params=r["params"], label=cx["label"], inputs=cx["inputs"],
                          info=cx.get("info"), detail=cx["detail"])
+            if cx.get("candidate_only"):
+                candidates.append(entry)
+                continue
             if not cx["reproduced"]:
                 unconfirmed.append(entry)
                 continue
@@ -411,6 +449,10 @@ def run_property(pid, modname, tier, seed, level_note, assumptions, bounds, only
     for u in unconfirmed[:10]:
         lines.append(f"UNCONFIRMED property={pid} harness={u['harness']} predicate={u['label']} "
                      f"params={u['params']} (solver model did not reproduce on the real code: {u['detail'][:200]})")
+    cand_keys = sorted({(u["harness"], u["label"], json.dumps(u["params"], sort_keys=True, default=str)) for u in candidates})
+    for hk, lb, pr in cand_keys[:10]:
+        lines.append(f"NOT-INDUCTIVE property={pid} harness={hk} predicate={lb} params={pr} (counterexample starts from a "
+                     f"symbolic pre-state that may be unreachable; only runs from a fresh object are reported)")
     for i in inconclusive[:20]:
         lines.append(f"INCONCLUSIVE property={pid} {i}")
     for b in broken:
@@ -441,7 +483,11 @@ def run_property(pid, modname, tier, seed, level_note, assumptions, bounds, only
             solver_seconds=tot["solver_s"], solver="z3 " + z3.get_version_string(),
             functions_encoded=units, harnesses=per_h, bounds=bounds,
             inconclusive=inconclusive[:40], unconfirmed_counterexamples=len(unconfirmed),
-            known_findings_hit=sorted(printed_known), harness_broken=broken, errors=[e[:400] for e in errors][:10],
+            not_inductive_candidates=[dict(harness=a, predicate=b, params=json.loads(cc)) for a, b, cc in cand_keys[:20]],
+            known_findings_hit=sorted(printed_known),
+            slowest_configs=[dict(harness=r["harness"], params=r["params"], wall_s=r.get("wall_s"),
+                                  paths=(r.get("stats") or {}).get("paths"), solver_s=(r.get("stats") or {}).get("solver_s"))
+                             for r in sorted(results, key=lambda r: -r.get("wall_s", 0))[:6]], harness_broken=broken, errors=[e[:400] for e in errors][:10],
             units_missing=missing_units,
             regenerated_from=REPO,
         ),
@@ -467,7 +513,7 @@ def replay_file(path):
         d = json.load(f)
     mod = importlib.import_module(d["module"])
     h = next(x for x in mod.HARNESSES if x.name == d["harness"])
-    rep, detail = h.replay(_unjson(d["inputs"]), d["label"], **d["params"])
+    rep, detail = run_replay(h, _unjson(d["inputs"]), d["label"], d["params"])
     print(("REPRODUCED " if rep else "NOT-REPRODUCED ") + str(detail))
     if rep:
         print(f"VIOLATION property={d['property']} replay={path}")
